@@ -10,7 +10,7 @@ PROPERTY = "C13"
 LEVEL = "fault_enumeration"
 CODE = ["yowsup/axolotl/store/sqlite/liteaxolotlstore.py", "litesessionstore.py", "liteidentitykeystore.py", "liteprekeystore.py", "litesignedprekeystore.py", "litesenderkeystore.py"]
 BOUNDS = {"quick": "per table: every sequence of <=2 operations over {store A, store B (replace), delete, ...} on 2 keys, crash at every statement/commit boundary of the last operation, reopen",
-          "thorough": "sequences of <=3 operations"}
+          "thorough": "sequences of <=4 operations"}
 OUTSIDE = ["sqlite's own journal atomicity (trusted: a transaction that was not committed is rolled back when the file is reopened)", "power-loss below the OS (fsync ordering)",
            "record contents: blobs are opaque tokens in the crash harness (sqlite only stores and compares them); real python-axolotl records are used in the durability harness"]
 ASSUMPTIONS = ["a process death = the connection is abandoned at a statement/commit boundary without commit"]
@@ -310,7 +310,7 @@ TABLES = ("sessions", "identities", "prekeys", "signed_prekeys", "sender_keys")
 
 
 def cases(tier):
-    n = 2 if tier == "quick" else 3
-    cs = [dict(name="crash[%s,ops<=%d]" % (t, n), fn=h_crash, args=(t, n), max_paths=100000, timeout_s=600 if tier == "quick" else 3000, weight=10, keep_samples=10) for t in TABLES]
+    n = 2 if tier == "quick" else 4
+    cs = [dict(name="crash[%s,ops<=%d]" % (t, n), fn=h_crash, args=(t, n), max_paths=100000, timeout_s=600 if tier == "quick" else 3400, weight=10, keep_samples=10) for t in TABLES]
     cs.append(dict(name="durable[real-records]", fn=h_durable_real))
     return cs
